@@ -1294,6 +1294,121 @@ def _nf_record_fields(fi, node):
     return T.changed
 
 
+def _nf_first_answer(fi, node):
+    """`return next(chain(g1(), g2(), ...))` / `return next(g())` over local generator closures (no parameters, only
+    mentioned there, every `yield` a statement of its own outside loops / try / with): the first value any of them
+    yields is returned, a generator that ends without yielding hands over to the next, none yielding raises
+    StopIteration — written out as exactly that:
+
+        while True:                      (g1)
+            <body of g1: `yield E` -> `return E`, `return` -> `break`>
+            break
+        ... g2 ...
+        raise StopIteration()
+    """
+    mod = fi.module
+    changed = False
+    for blk in _blocks_of(node):
+        for i, st in enumerate(blk):
+            c = st.value if isinstance(st, ast.Return) else None
+            if not (isinstance(c, ast.Call) and isinstance(c.func, ast.Name) and c.func.id == "next" and len(c.args) == 1 and not c.keywords):
+                continue
+            src = c.args[0]
+            if isinstance(src, ast.Call) and not src.keywords and src.args and (
+                    (isinstance(src.func, ast.Name) and mod.imports.get(src.func.id) == "itertools:chain")
+                    or (isinstance(src.func, ast.Attribute) and src.func.attr == "chain" and isinstance(src.func.value, ast.Name)
+                        and mod.imports.get(src.func.value.id) == "itertools")):
+                gens = list(src.args)
+            else:
+                gens = [src]
+            defs = {}
+            for b in _blocks_of(node):
+                for x in b:
+                    if isinstance(x, ast.FunctionDef):
+                        defs.setdefault(x.name, []).append((b, x))
+            outer_names = {n.id for n in _own_nodes(node) if isinstance(n, ast.Name)} | set(_stores(node))
+            parts = []
+            for k, g in enumerate(gens):
+                if not (isinstance(g, ast.Call) and isinstance(g.func, ast.Name) and not g.args and not g.keywords and len(defs.get(g.func.id, [])) == 1):
+                    parts = None
+                    break
+                home, fn = defs[g.func.id][0]
+                a = fn.args
+                if a.args or a.posonlyargs or a.kwonlyargs or a.vararg or a.kwarg or fn.decorator_list \
+                        or sum(1 for n in ast.walk(node) if isinstance(n, ast.Name) and n.id == fn.name) != 1:
+                    parts = None
+                    break
+                body = copy.deepcopy([x for x in fn.body if not (isinstance(x, ast.Expr) and isinstance(x.value, ast.Constant) and isinstance(x.value.value, str))])
+                ok = [True]
+                seen_yield = [False]
+
+                def conv(stmts, in_loop, guarded):
+                    out = []
+                    for x in stmts:
+                        if isinstance(x, ast.Expr) and isinstance(x.value, ast.Yield):
+                            if in_loop or guarded:
+                                ok[0] = False
+                            seen_yield[0] = True
+                            out.append(ast.copy_location(ast.Return(value=x.value.value), x))
+                            continue
+                        if isinstance(x, ast.Return):
+                            if x.value is not None or in_loop:
+                                ok[0] = False
+                            out.append(ast.copy_location(ast.Break(), x))
+                            continue
+                        if isinstance(x, _FUNCS + (ast.ClassDef,)):
+                            if any(isinstance(y, (ast.Yield, ast.YieldFrom)) for y in ast.walk(x)):
+                                ok[0] = False
+                            out.append(x)
+                            continue
+                        if any(isinstance(y, (ast.Yield, ast.YieldFrom, ast.Nonlocal, ast.Global, ast.Await)) for y in
+                               [x] + [z for f_ in ("test", "value", "iter", "targets", "target", "items", "exc") for z in _as_list(getattr(x, f_, None)) for z in ast.walk(z)]
+                               if not isinstance(y, ast.stmt)) or isinstance(x, (ast.Nonlocal, ast.Global)):
+                            ok[0] = False
+                        loop = in_loop or isinstance(x, (ast.For, ast.While, ast.AsyncFor))
+                        grd = guarded or isinstance(x, (ast.Try, ast.With, ast.AsyncWith))
+                        for fld in ("body", "orelse", "finalbody"):
+                            b = getattr(x, fld, None)
+                            if isinstance(b, list) and b and isinstance(b[0], ast.stmt):
+                                setattr(x, fld, conv(b, loop, grd))
+                        for h in getattr(x, "handlers", []) or []:
+                            h.body = conv(h.body, loop, grd)
+                        out.append(x)
+                    return out
+                body = conv(body, False, False)
+                if not ok[0] or not seen_yield[0]:
+                    parts = None
+                    break
+                # the generator's own locals stay apart from the function's
+                own = {n.id for x in body for n in ast.walk(x) if isinstance(n, ast.Name) and isinstance(n.ctx, (ast.Store, ast.Del))}
+                ren = {nm: "%s__g%d" % (nm, k + 1) for nm in own if nm in outer_names}
+                if ren:
+                    for x in body:
+                        for n in ast.walk(x):
+                            if isinstance(n, ast.Name) and n.id in ren:
+                                n.id = ren[n.id]
+                parts.append((home, fn, ast.copy_location(ast.While(test=ast.Constant(value=True), body=body + [ast.copy_location(ast.Break(), st)], orelse=[]), st)))
+            if not parts:
+                continue
+            stop = ast.copy_location(ast.Raise(exc=ast.Call(func=ast.Name(id="StopIteration", ctx=ast.Load()), args=[], keywords=[]), cause=None), st)
+            blk[i:i + 1] = [w for (_h, _f, w) in parts] + [stop]
+            for (home, fn, _w) in parts:
+                home.remove(fn)
+                if not home:
+                    home.append(ast.copy_location(ast.Pass(), fn))
+            ast.fix_missing_locations(node)
+            return True or changed
+    return changed
+
+
+def _as_list(v):
+    if v is None:
+        return []
+    if isinstance(v, list):
+        return [x.context_expr if isinstance(x, ast.withitem) else x for x in v if isinstance(x, (ast.AST,))]
+    return [v] if isinstance(v, ast.AST) else []
+
+
 def normal_form(ck, fi):
     """`fi` as the rules read it: maps, lambdas, constant dispatch tables and comprehensions over helpers written out,
     the helpers that this exposes inlined like any other new helper, canonical form re-applied.  The function itself
@@ -1308,6 +1423,8 @@ def normal_form(ck, fi):
     out = FuncInfo(fi.module, node, fi.qual, fi.cls, fi.parent)
     fi.module._index_nested(out)
     changed = _nf_record_fields(fi, node)
+    while _nf_first_answer(fi, node):
+        changed = True
     changed = _nf_maps(node) or changed
     changed = _nf_lambdas(node) or changed
     changed = _nf_dispatch(node) or changed
@@ -1340,17 +1457,26 @@ def normal_form(ck, fi):
         changed = _nf_comprehension_loops(node, resolves) or changed
         # a local closure that the front end left because it was handed to helpers, and that is only called now that
         # those helpers are written out, is written out as well
-        callees = {id(c.func) for c in ast.walk(node) if isinstance(c, ast.Call)}
-        for sub in list(out.nested.values()):
-            uses = [x for x in ast.walk(node) if isinstance(x, ast.Name) and x.id == sub.node.name]
-            if uses and all(id(x) in callees for x in uses) and any(resolves(c) for c in _own_nodes(node)
-                                                                     if isinstance(c, ast.Call) and isinstance(c.func, ast.Name) and c.func.id == sub.node.name):
-                changed = True
-        if changed:
+        def callable_closures():
+            callees = {id(c.func) for c in ast.walk(node) if isinstance(c, ast.Call)}
+            for sub in list(out.nested.values()):
+                uses = [x for x in ast.walk(node) if isinstance(x, ast.Name) and x.id == sub.node.name]
+                if uses and all(id(x) in callees for x in uses) and any(resolves(c) for c in _own_nodes(node)
+                                                                         if isinstance(c, ast.Call) and isinstance(c.func, ast.Name) and c.func.id == sub.node.name):
+                    return True
+            return False
+        changed = callable_closures() or changed
+        rounds = 0
+        while changed and rounds < 3:
+            rounds += 1
             out.nested = {}
             fi.module._index_nested(out)
             # (the variables such a closure shares with this function keep their names)
             inl.rewrite_block_owner(node, out, _all_names(node) - shared, 0)
+            out.nested = {}
+            fi.module._index_nested(out)
+            if not callable_closures():
+                break
         if any(isinstance(c, ast.Call) and isinstance(c.func, ast.Name) and c.func.id in stripped for c in _own_nodes(node)):
             cache[fi.qual] = (fi, fi)     # a call of such a closure is left: the function stays as it is
             return fi
